@@ -31,6 +31,13 @@ fn big_scalars<C: Suite>(p: &mut Pick) -> Vec<Sc<C>> {
         sc_from_be_bytes_mod::<C>(&p.bytes(64)),
         sc_u64::<C>(65537),
         sc_from_be_bytes_mod::<C>(&p.bytes(9)),
+        // 1, 2^16+1 (above), 2^64+1 (above) and 2^128+1 agree modulo 2^16 / 2^64 / 2^128: anything that compares or
+        // sorts identifiers by a truncated integer confuses them
+        one::<C>(),
+        {
+            let t32 = sc_u64::<C>(1 << 32);
+            t32 * t32 * t32 * t32 + one::<C>()
+        },
     ]
 }
 
